@@ -67,7 +67,7 @@ def judge(spec, obs):
             if obs.max_backlog < cap:
                 raise Violation('spurious_backlogfull', f"request {rec['rid']}: ServerBacklogFull({n}) but the backlog never reached capacity {cap}", signature=['spurious_backlogfull'])
             if rec['bp']:
-                if dt > 1e-12:
+                if dt > 1e-12 and not rec.get('untimed'):
                     raise Violation('backpressure_waited', f"request {rec['rid']}: backpressure rejection took {dt:.6f}s virtual, must be immediate", signature=['backpressure_waited'])
             else:
                 waited_when_full = True
@@ -75,7 +75,7 @@ def judge(spec, obs):
                     raise Violation('unanswered', f"request {rec['rid']} (unbounded timeout) rejected with ServerBacklogFull after {dt:.1f}s", signature=['unanswered'])
             if rec['rid'] in worked:
                 raise Violation('rejected_but_processed', f"request {rec['rid']} was rejected with ServerBacklogFull but reached a worker", signature=['rejected_but_processed'])
-        if rec['timeout'] != 'long' and dt > rec['timeout'] + 1e-9:
+        if rec['timeout'] != 'long' and dt > rec['timeout'] + 1e-9 and not rec.get('untimed'):
             raise Violation('waited_beyond_timeout', f"request {rec['rid']}: call took {dt:.6f}s > timeout {rec['timeout']} (outcome {rec['kind']})", signature=['waited_beyond_timeout', rec['kind']])
         if rec['timeout'] == 'long' and rec['kind'] == 'timeout':
             raise Violation('unanswered', f"request {rec['rid']} (unbounded timeout) raised TimeoutError after {dt:.1f}s virtual", signature=['unanswered'])
@@ -124,6 +124,36 @@ RULE = (
     'no call outlives its timeout; idle backlog == 0. Non-trivial: backlog reached capacity AND >=1 non-backpressure caller arrived at a full server; distinct by (tree, capacity, scripts, schedule prefix).'
 )
 
+@st.composite
+def async_spec(draw):
+    spec = draw(spec_strategy())
+    # async callers may also be cancelled while their call is pending
+    for script in spec['callers']:
+        for step in script:
+            if draw(st.integers(0, 6)) == 0:
+                step['cancel_after'] = draw(st.sampled_from([0.0, 0.001, 0.004, 0.02]))
+    return spec
+
+
+def run_async_case(spec):
+    obs = sv.run_async_server(spec)
+    # cancelled calls have no outcome to judge; they must still give their slot back (idle backlog below)
+    obs.calls = [r for r in obs.calls if r['kind'] != 'cancelled'] + []
+    waited = judge(spec, obs)
+    out = obs.out
+    kinds = sorted({r['kind'] for r in obs.calls})
+    full = obs.max_backlog == spec['capacity']
+    cancelled = any(step.get('cancel_after') is not None for sc in spec['callers'] for step in sc)
+    return CaseInfo(
+        nontrivial=full and waited,
+        descriptor=['async', spec['tree'], spec['capacity'], spec['callers'], spec['streams'], spec['reqs']],
+        classes=tuple(['async', f"cap{spec['capacity']}", 'full' if full else 'notfull', 'waited_when_full' if waited else 'nowait', 'with_cancellation' if cancelled else 'no_cancellation'] + ['saw_' + k for k in kinds]),
+        metrics={'steps': out.sim.steps, 'max_backlog_minus_capacity': obs.max_backlog - spec['capacity']},
+        sample={'tree': spec['tree'], 'capacity': spec['capacity'], 'callers': [[(s['rid'], s['timeout'], s['bp'], s.get('cancel_after')) for s in c] for c in spec['callers']], 'max_backlog': obs.max_backlog, 'outcomes': [(r['rid'], r['kind']) for r in obs.calls][:14]},
+    )
+
+
 FAMILIES = [
     Family('F1_server', 'sim', spec_strategy(), run_case, quick=2500, thorough=120_000, shards_quick=12, rule=RULE, setup=_warm),
+    Family('F2_async_server', 'sim', async_spec(), run_async_case, quick=1500, thorough=80_000, shards_quick=8, rule='as F1 for AsyncServer: callers are tasks on a scheduler-aware event loop, some calls are cancelled while pending; same invariants (every step) and clauses.', setup=_warm),
 ]
